@@ -32,11 +32,20 @@ package seccomp
 // C05 builder invariant: instructions emitted so far are of permitted kinds, returns carry values recorded in the ghost set R
 //@ macro ok(p) = progOK(p.instructions, p.R)
 
+// Representation invariant of a Program: the recorded jumps are exactly the conditional jumps of the program,
+// in program order; label positions lie inside the program or at its end.
+//@ macro riJ(p) = forall(k, 0, len(p.jumps), 0 <= p.jumps[k].index && p.jumps[k].index < len(p.instructions) && istype(p.instructions[p.jumps[k].index], bpf.JumpIf)) && forall(x, 0, len(p.instructions), istype(p.instructions[x], bpf.JumpIf) ==> unbox(p.instructions[x], bpf.JumpIf).SkipTrue == 0 && unbox(p.instructions[x], bpf.JumpIf).SkipFalse == 0, trig(p.instructions[x])) && forall(a, 0, len(p.jumps), forall(b, a + 1, len(p.jumps), p.jumps[a].index < p.jumps[b].index)) && jumpsComplete(p.instructions, p.jumps)
+//@ macro riL(p) = nonnil(p.labels) && forallk(l, p.labels, forall(m, 0, len(p.labels[l]), 0 <= p.labels[l][m] && p.labels[l][m] <= len(p.instructions)))
+//@ macro ri(p) = riJ(p) && riL(p)
+
+// jump k of the label-level program p0 is resolved in the instruction list R: same test, and each branch continues
+// at the (moved) position of its label, or at a bridge to it
 //@ func NewProgram() Program   properties C01 C03 C05 C06
 //@   deterministic C13
 //@   frame_props C13
 //@   ensures @empty len(result.instructions) == 0 && len(result.jumps) == 0 && result.nextLabel == 1
 //@   ensures @labels nonnil(result.labels) && card(result.labels) == 0
+//@   ensures @ri {C06} ri(result)
 
 //@ func (p *Program) NewLabel() Label   properties C01 C02 C03 C06
 //@   deterministic C13
@@ -47,6 +56,7 @@ package seccomp
 //@   ensures @frame p.G == old(p.G) && p.instructions == old(p.instructions) && p.jumps == old(p.jumps) && p.labels == old(p.labels)
 //@   ensures @fresh fresh(old(p)) ==> fresh(p) && !g_taken(p.G)[result]
 //@   ensures @ok {C05} p.R == old(p.R)
+//@   ensures @ri {C06} ri(old(p)) ==> ri(p)
 
 //@ func (p *Program) currentIndex() Index   properties C06
 //@   requires p != nil
@@ -63,6 +73,7 @@ package seccomp
 //@   ensures @frame p.nextLabel == old(p.nextLabel) && p.labels == old(p.labels)
 //@   ensures @fresh fresh(old(p)) && trueLabel <= old(p.nextLabel) && falseLabel <= old(p.nextLabel) ==> fresh(p)
 //@   ensures @ok {C05} p.R == old(p.R) && (ok(old(p)) && 0 <= cond && cond <= 7 ==> ok(p))
+//@   ensures @ri {C06} ri(old(p)) ==> ri(p)
 
 //@ func (p *Program) SetLabel(label Label)   properties C01 C02 C03 C06
 //@   deterministic C13
@@ -74,6 +85,7 @@ package seccomp
 //@   ensures @frame p.nextLabel == old(p.nextLabel) && p.instructions == old(p.instructions) && p.jumps == old(p.jumps) && nonnil(p.labels)
 //@   ensures @fresh fresh(old(p)) ==> fresh(p)
 //@   ensures @ok {C05} p.R == old(p.R)
+//@   ensures @ri {C06} ri(old(p)) ==> ri(p)
 
 //@ func (p *Program) JmpIfTrue(cond bpf.JumpTest, val uint32, trueLabel Label)   properties C01 C02 C03 C05 C06
 //@   deterministic C13
@@ -85,6 +97,7 @@ package seccomp
 //@   ensures @insn len(p.instructions) == len(old(p.instructions)) + 1
 //@   ensures @fresh fresh(old(p)) && trueLabel <= old(p.nextLabel) ==> fresh(p) && !g_taken(old(p.G))[old(p.nextLabel) + 1]
 //@   ensures @ok {C05} p.R == old(p.R) && (ok(old(p)) && 0 <= cond && cond <= 7 ==> ok(p))
+//@   ensures @ri {C06} ri(old(p)) ==> ri(p)
 
 //@ func (p *Program) Ret(action Action)   properties C01 C05 C06
 //@   deterministic C13
@@ -98,6 +111,7 @@ package seccomp
 //@   ensures @fresh fresh(old(p)) ==> fresh(p)
 //@   ghost p.R = addRet(p.R, unbox(p.instructions[len(p.instructions)-1], bpf.RetConstant).Val) at exit
 //@   ensures @ok {C05} p.R == addRet(old(p.R), enc(action)) && (ok(old(p)) ==> ok(p))
+//@   ensures @ri {C06} ri(old(p)) ==> ri(p)
 
 //@ func (p *Program) LdHi(arg uint32)   properties C02 C05
 //@   deterministic C13
@@ -111,6 +125,7 @@ package seccomp
 //@   ensures @frame p.nextLabel == old(p.nextLabel) && p.labels == old(p.labels) && p.jumps == old(p.jumps)
 //@   ensures @fresh fresh(old(p)) ==> fresh(p)
 //@   ensures @ok {C05} p.R == old(p.R) && (ok(old(p)) ==> ok(p))
+//@   ensures @ri {C06} ri(old(p)) ==> ri(p)
 
 //@ func (p *Program) ldSyscallNum()   properties C03 C05
 //@   deterministic C13
@@ -123,6 +138,7 @@ package seccomp
 //@   ensures @frame p.nextLabel == old(p.nextLabel) && p.labels == old(p.labels) && p.jumps == old(p.jumps)
 //@   ensures @fresh fresh(old(p)) ==> fresh(p)
 //@   ensures @ok {C05} p.R == old(p.R) && (ok(old(p)) ==> ok(p))
+//@   ensures @ri {C06} ri(old(p)) ==> ri(p)
 
 //@ func (p *Program) LdLo(arg uint32)   properties C02 C05
 //@   deterministic C13
@@ -136,6 +152,7 @@ package seccomp
 //@   ensures @frame p.nextLabel == old(p.nextLabel) && p.labels == old(p.labels) && p.jumps == old(p.jumps)
 //@   ensures @fresh fresh(old(p)) ==> fresh(p)
 //@   ensures @ok {C05} p.R == old(p.R) && (ok(old(p)) ==> ok(p))
+//@   ensures @ri {C06} ri(old(p)) ==> ri(p)
 
 // nativeEndian is assigned once by init() (not verified: unsafe); it is one of the two orders.
 //@ global nativeEndian immutable
@@ -196,6 +213,7 @@ package seccomp
 //@   ensures @done g_done(p.G) == g_done(G0) && g_rval(p.G) == g_rval(G0)
 //@   ensures @fresh fresh(p) && p.nextLabel >= N0 && nonnil(p.labels)
 //@   ensures @ok {C05} p.R == old(p.R) && (ok(old(p)) ==> ok(p))
+//@   ensures @ri {C06} ri(old(p)) ==> ri(p)
 //@   let R0 = p.R
 //@   let ok0 = ok(p)
 //@   use anyListZero(s) at before loop 1
@@ -208,6 +226,7 @@ package seccomp
 //@   loop 1 binder k
 //@     invariant @struct p != nil && nonnil(p.labels) && p.nextLabel >= N0 + 2 && nextSyscall == N0 + 1
 //@     invariant @ok {C05} p.R == R0 && (ok0 ==> ok(p))
+//@     invariant @ri {C06} ri(old(p)) ==> ri(p)
 //@     invariant @fresh fresh(p)
 //@     invariant @done g_done(p.G) == g_done(G0) && g_rval(p.G) == g_rval(G0)
 //@     invariant @sem {C03} pre && sem ==> (g_taken(p.G)[action] == (g_taken(G0)[action] || (hdr && anyList(s, k))) && g_taken(p.G)[nextSyscall] == !hdr && g_live(p.G) == (hdr && !anyList(s, k)))
@@ -216,6 +235,7 @@ package seccomp
 //@   loop 2 binder i
 //@     invariant @struct p != nil && nonnil(p.labels) && p.nextLabel >= noMatch && noMatch >= N0 + 3
 //@     invariant @ok {C05} p.R == R0 && (ok0 ==> ok(p))
+//@     invariant @ri {C06} ri(old(p)) ==> ri(p)
 //@     invariant @fresh fresh(p)
 //@     invariant @done g_done(p.G) == g_done(G0) && g_rval(p.G) == g_rval(G0)
 //@     invariant @live {C02 C03} pre && sem ==> g_live(p.G) == (hdr && !anyList(s, k) && allHoldUpTo(conditions, i) && i < len(conditions))
@@ -328,16 +348,164 @@ package seccomp
 
 // ---- group and policy assembly (C01 C03 C04 C05 C07) ----
 
-// Contract of label resolution (property C06). Body verified separately (layer A); C01-C05/C07 only use this contract.
-// A0 is the arbitrary accumulator with which the block is entered: p.G must have been started as Ginit(A0).
-//@ func (p *Program) Assemble() ([]bpf.Instruction, error)   properties C06
-//@   trusted
+// ---------------------------------------------------------------------------
+// Layer A: label resolution (assembler.go), property C06.
+// Ghost state: ghost.apos maps an index of the label-level program (the Program at entry of Assemble)
+// to the index of the same instruction now; ghost.mt / ghost.mf record, per jump, which position of its
+// true / false label is its destination.
+// ---------------------------------------------------------------------------
+//@ global apos ghost:(Array Int Int)
+//@ global mt ghost:(Array Int Int)
+//@ global mf ghost:(Array Int Int)
+// the caller of insertBridge names the position of the label that is the destination
+//@ global wm ghost:Int
+
+//@ macro sh(v, a) = ite(v >= a, v + 1, v)
+//@ macro jumpsShifted(J1, J0, a) = len(J1) == len(J0) && forall(k, 0, len(J1), J1[k].index == sh(J0[k].index, a) && J1[k].trueLabel == J0[k].trueLabel && J1[k].falseLabel == J0[k].falseLabel)
+//@ macro labelsShifted(L1, L0, a) = nonnil(L1) == nonnil(L0) && forallk(l, L1, has(L1, l) == has(L0, l) && len(L1[l]) == len(L0[l]) && forall(m, 0, len(L1[l]), L1[l][m] == sh(L0[l][m], a)))
+
+//@ func (p *Program) destination(jump JumpIf, label Label) (Index, error)   properties C06
 //@   requires p != nil
-//@   modifies p
+//@   let s = p.labels[label]
+//@   let m = firstIdxAbove(s, jump.index, 0)
+//@   ensures @found result1 == nil ==> isFirstAbove(s, jump.index, m) && result0 == s[m]
+//@   ensures @none result1 != nil ==> forall(j, 0, len(s), s[j] <= jump.index) && result0 == 0
+//@   loop 1 binder k
+//@     invariant @scan firstIdxAbove(s, jump.index, 0) == firstIdxAbove(s, jump.index, k) && forall(j, 0, k, s[j] <= jump.index)
+
+//@ func (p *Program) computeSkipN(jump JumpIf, label Label) (int, error)   properties C06
+//@   requires p != nil
+//@   requires @index jump.index >= 0
+//@   let s = p.labels[label]
+//@   let m = firstIdxAbove(s, jump.index, 0)
+//@   ensures @found result1 == nil ==> isFirstAbove(s, jump.index, m) && result0 == s[m] - jump.index - 1 && result0 >= 0
+//@   ensures @none result1 != nil ==> forall(j, 0, len(s), s[j] <= jump.index)
+
+// every recorded index is at most n
+//@ macro idxBelow(p, n) = forall(k, 0, len(p.jumps), p.jumps[k].index < n) && forallk(l, p.labels, forall(m, 0, len(p.labels[l]), p.labels[l][m] < n))
+//@ func (p *Program) updateIndices(after Index)   properties C06
+//@   requires p != nil
+//@   requires @bounded idxBelow(p, len(p.instructions))
+//@   modifies p, ghost.apos
+//@   ghost ghost.apos = shiftArr(ghost.apos, after) at exit
+//@   ensures @pos ghost.apos == shiftArr(old(ghost.apos), after)
+//@   ensures @jumps jumpsShifted(p.jumps, old(p.jumps), after)
+//@   ensures @labels labelsShifted(p.labels, old(p.labels), after)
+//@   ensures @frame p.instructions == old(p.instructions) && p.G == old(p.G) && p.R == old(p.R) && p.nextLabel == old(p.nextLabel)
+//@   loop 1 binder k
+//@     invariant @frame1 p.instructions == old(p.instructions) && p.G == old(p.G) && p.R == old(p.R) && p.nextLabel == old(p.nextLabel) && p.labels == old(p.labels)
+//@     invariant @done1 len(p.jumps) == len(old(p.jumps)) && forall(j, 0, len(p.jumps), p.jumps[j].index == ite(j < k, sh(old(p.jumps)[j].index, after), old(p.jumps)[j].index) && p.jumps[j].trueLabel == old(p.jumps)[j].trueLabel && p.jumps[j].falseLabel == old(p.jumps)[j].falseLabel)
+//@   loop 2 binder vis
+//@     invariant @frame2 p.instructions == old(p.instructions) && p.G == old(p.G) && p.R == old(p.R) && p.nextLabel == old(p.nextLabel)
+//@     invariant @jumps2 jumpsShifted(p.jumps, old(p.jumps), after)
+//@     invariant @done2 nonnil(p.labels) == nonnil(old(p.labels)) && forallk(l, p.labels, has(p.labels, l) == has(old(p.labels), l) && len(p.labels[l]) == len(old(p.labels)[l]) && forall(m, 0, len(p.labels[l]), p.labels[l][m] == ite(vis[l], sh(old(p.labels)[l][m], after), old(p.labels)[l][m])))
+//@   loop 3 binder k3
+//@     invariant @frame3 p.instructions == old(p.instructions) && p.G == old(p.G) && p.R == old(p.R) && p.nextLabel == old(p.nextLabel)
+//@     invariant @jumps3 jumpsShifted(p.jumps, old(p.jumps), after)
+//@     invariant @done3 nonnil(p.labels) == nonnil(old(p.labels)) && forallk(l, p.labels, has(p.labels, l) == has(old(p.labels), l) && len(p.labels[l]) == len(old(p.labels)[l]) && forall(m, 0, len(p.labels[l]), p.labels[l][m] == ite(vis[l] || (l == label && m < k3), sh(old(p.labels)[l][m], after), old(p.labels)[l][m])))
+
+// Assumption (listed in evidence): a program has fewer than 2^32 instructions (2^32 interface values are 64 GiB),
+// so that the distance of an unconditional jump fits its 32-bit field.
+//@ func (p *Program) insertBridge(at Index, jump JumpIf, label Label)   properties C06
+//@   requires p != nil
+//@   let s = p.labels[label]
+//@   let d = s[ghost.wm]
+//@   requires @found isFirstAbove(s, jump.index, ghost.wm)
+//@   requires @at 0 <= at && at < len(p.instructions) && at <= jump.index + 1
+//@   requires @bounded idxBelow(p, len(p.instructions) + 1)
+//@   requires @small len(p.instructions) < 4294967296
+//@   modifies p, ghost.apos
+//@   ensures @pos ghost.apos == shiftArr(old(ghost.apos), at)
+//@   ensures @jumps jumpsShifted(p.jumps, old(p.jumps), at)
+//@   ensures @labels labelsShifted(p.labels, old(p.labels), at)
+//@   ensures @ins len(p.instructions) == len(old(p.instructions)) + 1 && forall(j, 0, at, p.instructions[j] == old(p.instructions)[j], trig(p.instructions[j])) && forall(j, at + 1, len(p.instructions), p.instructions[j] == old(p.instructions)[j - 1], trig(p.instructions[j]))
+//@   ensures @bridge ite(d < len(old(p.instructions)) && isRet(old(p.instructions)[d]), p.instructions[at] == old(p.instructions)[d], istype(p.instructions[at], bpf.Jump) && w2i(unbox(p.instructions[at], bpf.Jump).Skip) == d - at)
+//@   ensures @frame p.G == old(p.G) && p.R == old(p.R) && p.nextLabel == old(p.nextLabel)
+
+//@ macro jx(p0, k) = p0.jumps[k].index
+//@ macro jcur(p0, R, k) = unbox(R[ghost.apos[p0.jumps[k].index]], bpf.JumpIf)
+//@ macro resKind(p0, R, k) = istype(R[ghost.apos[jx(p0, k)]], bpf.JumpIf) && jcur(p0, R, k).Cond == unbox(p0.instructions[jx(p0, k)], bpf.JumpIf).Cond && jcur(p0, R, k).Val == unbox(p0.instructions[jx(p0, k)], bpf.JumpIf).Val && 0 <= jcur(p0, R, k).SkipTrue && 0 <= jcur(p0, R, k).SkipFalse
+//@ macro resMT(p0, k) = isFirstAbove(p0.labels[p0.jumps[k].trueLabel], jx(p0, k), ghost.mt[k])
+//@ macro resMF(p0, k) = isFirstAbove(p0.labels[p0.jumps[k].falseLabel], jx(p0, k), ghost.mf[k])
+//@ macro resBT(p0, R, k) = branchOK(R, ghost.apos[jx(p0, k)] + 1 + jcur(p0, R, k).SkipTrue, ghost.apos[p0.labels[p0.jumps[k].trueLabel][ghost.mt[k]]])
+//@ macro resBF(p0, R, k) = branchOK(R, ghost.apos[jx(p0, k)] + 1 + jcur(p0, R, k).SkipFalse, ghost.apos[p0.labels[p0.jumps[k].falseLabel][ghost.mf[k]]])
+// every other instruction is where the position map says, directly followed by its successor
+//@ macro plainOK(p0, R) = forall(x, 0, len(p0.instructions), !istype(p0.instructions[x], bpf.JumpIf) ==> R[ghost.apos[x]] == p0.instructions[x] && ghost.apos[x + 1] == ghost.apos[x] + 1, trig(p0.instructions[x]))
+//@ macro sim(p0, R) = posMono(ghost.apos) && ghost.apos[0] == 0 && ghost.apos[len(p0.instructions)] == len(R) && plainOK(p0, R) && forall(k, 0, len(p0.jumps), resKind(p0, R, k)) && forall(k, 0, len(p0.jumps), resMT(p0, k)) && forall(k, 0, len(p0.jumps), resMF(p0, k)) && forall(k, 0, len(p0.jumps), resBT(p0, R, k)) && forall(k, 0, len(p0.jumps), resBF(p0, R, k))
+
+// MT-R (meta-theory, DESIGN.md 3.3): a resolved program that simulates the label-level program p0 (sim) returns what
+// the single-pass interpretation G of p0 returns. Proved by induction on the execution (not by the SMT solver): trusted.
+// Further hypotheses of the theorem that are not checked: p0.G is the interpretation of exactly the structure
+// (instructions, jumps, labels) of p0 (the ghost statements of the builder primitives read what the code appended),
+// and every label is set at most once (every caller in the package takes a label from NewLabel and sets it once).
+//@ lemma MTR(p0 Program, R []bpf.Instruction)
+//@   trusted
+//@   ensures ri(p0) && sim(p0, R) ==> run(R, 0, A0) == outG(p0.G)
+
+// Facts about strictly increasing position maps; in Program.Assemble posMono itself is opaque and these are used at
+// explicit pivots (the definition quantifies over pairs, which is quadratic for the solver).
+//@ lemma monoId()
+//@   ensures posMono(idArr)
+//@ lemma monoShift(k int)
+//@   ensures posMono(ghost.apos) ==> posMono(shiftArr(ghost.apos, k))
+//@ lemma monoPivot(x int)
+//@   ensures posMono(ghost.apos) ==> forallk(y, "Int", (y > x ==> ghost.apos[y] > ghost.apos[x]) && (y < x ==> ghost.apos[y] < ghost.apos[x]))
+
+// Contract of label resolution (property C06). A0 is the arbitrary accumulator with which the block is entered:
+// p.G must have been started as Ginit(A0).
+//@ func (p *Program) Assemble() ([]bpf.Instruction, error)   properties C06
+//@   requires p != nil
+//@   requires @ri ri(p)
+//@   modifies p, ghost.apos, ghost.mt, ghost.mf, ghost.wm
 //@   ensures @err result1 != nil ==> len(result0) == 0
 //@   ensures @sem result1 == nil ==> run(result0, 0, A0) == outG(old(p.G))
 //@   ensures @closed result1 == nil && ok(old(p)) ==> closed(result0) && retsInSet(result0, old(p.R))
-//@   ensures @len result1 == nil ==> len(result0) >= len(old(p.instructions)) && own(result0)
+//@   ensures @len result1 == nil ==> len(result0) >= len(old(p.instructions))
+//@   opaque posMono jumpsComplete
+//@   ghost ghost.apos = idArr at entry
+//@   use monoId() at entry
+//@   use monoPivot(old(p.jumps)[i].index) at loop 1 body
+//@   use monoPivot(n0) at loop 1 body
+//@   use monoShift(jump.index + 1) at before call Program.insertBridge#1
+//@   use monoShift(jump.index + 1) at before call Program.insertBridge#2
+//@   use monoShift(jump.index + 1) at before call Program.insertBridge#3
+//@   use monoShift(jump.index + 1) at before call Program.insertBridge#4
+//@   let n0 = len(p.instructions)
+//@   let nJ = len(p.jumps)
+//@   loop 1
+//@     invariant @range 0 - 1 <= i && i < nJ && len(p.jumps) == nJ
+//@     invariant @frame p.G == old(p.G) && p.R == old(p.R) && p.nextLabel == old(p.nextLabel)
+//@     invariant @jumps forall(k, 0, nJ, p.jumps[k].index == ghost.apos[old(p.jumps)[k].index] && p.jumps[k].trueLabel == old(p.jumps)[k].trueLabel && p.jumps[k].falseLabel == old(p.jumps)[k].falseLabel)
+//@     invariant @labels nonnil(p.labels) && forallk(l, p.labels, has(p.labels, l) == has(old(p.labels), l) && len(p.labels[l]) == len(old(p.labels)[l]) && forall(m, 0, len(p.labels[l]), p.labels[l][m] == ghost.apos[old(p.labels)[l][m]]))
+//@     invariant @mono posMono(ghost.apos) && ghost.apos[n0] == len(p.instructions)
+//@     invariant @ident forall(y, 0, ite(i + 1 < nJ, old(p.jumps)[i + 1].index, n0) + 1, ghost.apos[y] == y)
+//@     invariant @bounded idxBelow(p, len(p.instructions) + 1)
+//@     invariant @plain plainOK(old(*p), p.instructions)
+//@     invariant @todo forall(k, 0, i + 1, p.instructions[old(p.jumps)[k].index] == old(p.instructions)[old(p.jumps)[k].index])
+//@     invariant @kind forall(k, i + 1, nJ, resKind(old(*p), p.instructions, k))
+//@     invariant @mt forall(k, i + 1, nJ, resMT(old(*p), k))
+//@     invariant @mf forall(k, i + 1, nJ, resMF(old(*p), k))
+//@     invariant @bt forall(k, i + 1, nJ, resBT(old(*p), p.instructions, k))
+//@     invariant @bf forall(k, i + 1, nJ, resBF(old(*p), p.instructions, k))
+//@     invariant @grow len(p.instructions) >= n0
+//@     invariant @closed {C05} ok(old(p)) ==> closed(p.instructions) && retsInSet(p.instructions, old(p.R))
+//@   ghost assume len(p.instructions) < 4294967294 at loop 1 body
+//@   assert @xi p.jumps[i].index == old(p.jumps)[i].index && ghost.apos[old(p.jumps)[i].index] == old(p.jumps)[i].index at loop 1 body
+//@   assert @above forall(k, i + 1, nJ, ghost.apos[old(p.jumps)[k].index] > p.jumps[i].index) at loop 1 body
+//@   assert @aboveT forall(k, i + 1, nJ, ghost.apos[old(p.labels)[old(p.jumps)[k].trueLabel][ghost.mt[k]]] > p.jumps[i].index) at loop 1 body
+//@   assert @aboveF forall(k, i + 1, nJ, ghost.apos[old(p.labels)[old(p.jumps)[k].falseLabel][ghost.mf[k]]] > p.jumps[i].index) at loop 1 body
+//@   assert @skips unbox(p.instructions[jump.index], bpf.JumpIf).SkipTrue == skipTrue && unbox(p.instructions[jump.index], bpf.JumpIf).SkipFalse == skipFalse at loop 1 end
+//@   assert @bt_new resBT(old(*p), p.instructions, i) at loop 1 end
+//@   assert @bt_old forall(k, i + 1, nJ, resBT(old(*p), p.instructions, k)) at loop 1 end
+//@   assert @bf_new resBF(old(*p), p.instructions, i) at loop 1 end
+//@   assert @bf_old forall(k, i + 1, nJ, resBF(old(*p), p.instructions, k)) at loop 1 end
+//@   ghost ghost.mt = store(ghost.mt, i, firstIdxAbove(p.labels[jump.trueLabel], jump.index, 0)) at after call Program.computeSkipN#1
+//@   ghost ghost.mf = store(ghost.mf, i, firstIdxAbove(p.labels[jump.falseLabel], jump.index, 0)) at after call Program.computeSkipN#2
+//@   ghost ghost.wm = ghost.mf[i] at before call Program.insertBridge#1
+//@   ghost ghost.wm = ghost.mt[i] at before call Program.insertBridge#2
+//@   ghost ghost.wm = ghost.mt[i] at before call Program.insertBridge#3
+//@   ghost ghost.wm = ghost.mf[i] at before call Program.insertBridge#4
+//@   use MTR(old(*p), p.instructions) at after loop 1
 
 // MT-3 (meta-theory, DESIGN.md 3.3): a closed block embedded in a program behaves like the block run on its own,
 // then continues behind it. Proved by induction on the execution (not by the SMT solver): trusted.
@@ -372,7 +540,7 @@ package seccomp
 //@   ensures @empty empty ==> len(result0) == 0 && result1 == nil
 //@   ensures @err {C07} result1 != nil ==> len(result0) == 0
 //@   ensures @sem {C01 C03} result1 == nil && !empty && groupListsNonEmpty(*g) && A0 == ev_nr(ev) ==> run(result0, 0, A0) == ite(groupMatchesF(*g.arch, *g), Ret(enc(g.Action)), ite(fallThrough, Fall(ev_nr(ev)), Ret(enc(defaultAction))))
-//@   ensures @closed {C05} result1 == nil ==> closed(result0) && own(result0)
+//@   ensures @closed {C05} result1 == nil ==> closed(result0)
 //@   ensures @rets {C05} result1 == nil ==> retsInSet(result0, addRet(addRet(emptyRets, enc(g.Action)), ite(fallThrough, enc(g.Action), enc(defaultAction))))
 //@   ensures @c07_names {C07} result1 == nil && !empty ==> groupValidF(*g.arch, *g)
 //@   use groupValidLink(g) at entry
@@ -386,6 +554,7 @@ package seccomp
 //@   loop 1 binder k
 //@     invariant @struct nonnil(p.labels) && action == 2 && p.nextLabel >= 2 && fresh(p) && !g_done(p.G)
 //@     invariant @ok {C05} p.R == emptyRets && ok(p)
+//@     invariant @ri {C06} ri(p)
 //@     invariant @sem {C01 C03} A0 == ev_nr(ev) && entriesListsNonEmpty(syscalls) ==> g_live(p.G) == !anyEntry(syscalls, k) && (g_live(p.G) ==> g_A(p.G) == ev_nr(ev)) && g_taken(p.G)[action] == anyEntry(syscalls, k)
 
 //@ lemma groupValidLink(g *SyscallGroup)
@@ -659,7 +828,7 @@ package seccomp
 //@   ghost havoc ghost.anycur at before call seccomp#1
 //@   ghost ghost.cur = ite(ghost.locked, ghost.cur, ghost.anycur) at before call seccomp#1
 //@   assert @nnp_before_install {C11} filter.NoNewPrivs ==> ghost.nnp[ghost.cur] at before call seccomp#1
-//@   assert @handover {C08} nonnil(program) && program.Len == len(sockFilter) && len(sockFilter) == len(insts) && nonnil(program.Filter) && *program.Filter == sockFilter[0] && forall(i, 0, len(insts), exists(j, i, i + 1, encodes(insts[j], raw[j]) && sockFilter[j].Code == raw[j].Op && sockFilter[j].Jt == raw[j].Jt && sockFilter[j].Jf == raw[j].Jf && sockFilter[j].K == raw[j].K)) at before call seccomp#1
+//@   assert @handover {C08} nonnil(program) && program.Len == len(sockFilter) && len(sockFilter) == len(insts) && nonnil(program.Filter) && *program.Filter == sockFilter[0] && forall(i, 0, len(insts), encodes(insts[i], raw[i])) && forall(i, 0, len(insts), sockFilter[i].Code == raw[i].Op && sockFilter[i].Jt == raw[i].Jt && sockFilter[i].Jf == raw[i].Jf && sockFilter[i].K == raw[i].K) at before call seccomp#1
 //@   ensures @in_force {C09} result == nil ==> ghost.att[ghost.cur] && (filter.Flag & 1 != 0 ==> ghost.att == allThreads)
 //@   ensures @refused {C09} ghost.att != noThreads ==> result == nil
 //@   ensures @one_seccomp {C09 C10} result == nil ==> ghost.nseccomp == old(ghost.nseccomp) + 1 && ghost.kop == 1 && ghost.kflags == zext64(filter.Flag)
